@@ -32,7 +32,15 @@ def run(chk, tier):
     chk.rule("R-PROG", "loop progress")
     nl = progloops.run(chk, P, ["bitmap.c"])
     chk.floor("R-PROG", "in-scope loops", nl, 18)
-    chk.decided += ["word indexes into ulongs[] stay below the word count in every bitmap function but the five listed as out of scope",
+    chk.rule("R-WORDCOVER", "the word loops of the operations that read every word tile the word indexes without a gap: the lower end of each loop range [lo, hi) is 0, the upper end of another word loop "
+             "of the function, or just above a single access (ranges as linear forms); a function with a word loop in another form is not judged")
+    import wordcover
+    nwc, wskipped = wordcover.run(chk, P)
+    chk.floor("R-WORDCOVER", "word-loop ranges", nwc, 20)
+    if wskipped:
+        chk.notes.append("R-WORDCOVER: not judged (a word loop is not a counted for): %s" % ", ".join(wskipped))
+    chk.decided += ['the word loops of the operations that read every word tile the word indexes without a gap (head/tail loops, first/middle/last word)',
+                    "word indexes into ulongs[] stay below the word count in every bitmap function but the five listed as out of scope",
                     'ulongs_allocated always records the size of the ulongs allocation',
                     "results do not depend on whether the destination aliases an operand (effect order on all paths)",
                     "results do not depend on the history that built a set (allocation size never consulted; infinite flag always consulted; defining functions overwrite)",
